@@ -260,6 +260,9 @@ enum Op {
     SetFunction,
     Disable(bool),
     Assign(&'static str),
+    /// replace the context by deserialize(serialize(context)): deserialized contexts are reachable
+    /// states too, and the history goes on from them
+    RoundTrip,
 }
 
 fn apply(c: &mut HCtx, op: &Op, pool: &[EV]) {
@@ -277,6 +280,14 @@ fn apply(c: &mut HCtx, op: &Op, pool: &[EV]) {
         },
         Op::Assign(src) => {
             let _ = evalexpr::eval_with_context_mut(src, c);
+        },
+        Op::RoundTrip => {
+            // a failure here is reported by check_context on the state before this step
+            if let Ok(text) = ron::ser::to_string(&*c) {
+                if let Ok(back) = ron::de::from_str::<HCtx>(&text) {
+                    *c = back;
+                }
+            }
         },
     }
 }
@@ -366,6 +377,7 @@ fn part_contexts(depth: usize, st: &mut Stats) {
     ops.push(Op::Disable(false));
     ops.push(Op::Assign("a = 1.0 / 3; B = (a, \"x\", ()); b = 2"));
     ops.push(Op::Assign("b = 0.1 + 0.2"));
+    ops.push(Op::RoundTrip);
     // depth-bounded exploration of API histories; at the deepest level only a slice of the value actions
     fn go(c: &HCtx, hist: &mut Vec<String>, ops: &[Op], pool: &[EV], left: usize, depth: usize, st: &mut Stats) {
         check_context(c, &hist.join("; "), st);
@@ -452,7 +464,7 @@ fn write_outputs(tier: &str, seed: u64, st: &Stats, wall: f64) -> i32 {
         st.states,
         st.transitions,
         st.transitions,
-        esc("(a) depth-first search over every token sequence up to the tier's length over a 14-token alphabet and every character string up to the tier's length over 25 characters (quotes, backslashes, newline, multi-byte, signs, digits, dot, e, x, punctuation), each encoded as a RON string with ron::ser::to_string and decoded as Node: Ok trees must equal build_operator_tree(s), Err messages must equal error.to_string(); (b) every HashMapContext reachable by API histories up to the tier's depth over {set_value of 4 names (two differing only in case, one with a space and a non-ASCII letter, the empty name) x a value pool of all six types incl. i64 extremes, signed zero, subnormal, infinities, NaN, nested/empty tuples, hostile strings; clear_variables; set_function; builtin switch on/off; expression assignments}: from_str(to_string(c)) must have the same sorted variable map (floats by bits), the same switch and resolve no user function; plus every pool value as a bare Value; plus scaling families (expressions of n terms / nesting depth n / strings of n escapes, contexts with n variables incl. case-colliding names and an n-tuple, n in 1..20 and up to 129 / 1..40 and up to 400). A state is a token/character prefix or a context history; a transition appends a token or applies an operation; every state is executed on the implementation. Non-trivial = sources of >= 3 bytes and contexts with >= 2 variables (each enumerated once)"),
+        esc("(a) depth-first search over every token sequence up to the tier's length over a 14-token alphabet and every character string up to the tier's length over 25 characters (quotes, backslashes, newline, multi-byte, signs, digits, dot, e, x, punctuation), each encoded as a RON string with ron::ser::to_string and decoded as Node: Ok trees must equal build_operator_tree(s), Err messages must equal error.to_string(); (b) every HashMapContext reachable by API histories up to the tier's depth over {set_value of 4 names (two differing only in case, one with a space and a non-ASCII letter, the empty name) x a value pool of all six types incl. i64 extremes, signed zero, subnormal, infinities, NaN, nested/empty tuples, hostile strings; clear_variables; set_function; builtin switch on/off; expression assignments; replacing the context by its own deserialized copy, so that histories continue from deserialized contexts}: from_str(to_string(c)) must have the same sorted variable map (floats by bits), the same switch and resolve no user function; plus every pool value as a bare Value; plus scaling families (expressions of n terms / nesting depth n / strings of n escapes, contexts with n variables incl. case-colliding names and an n-tuple, n in 1..20 and up to 129 / 1..40 and up to 400). A state is a token/character prefix or a context history; a transition appends a token or applies an operation; every state is executed on the implementation. Non-trivial = sources of >= 3 bytes and contexts with >= 2 variables (each enumerated once)"),
         samples,
         counters,
         [
